@@ -154,4 +154,9 @@ theorem default_probability_is_one :
     (Num.ofConst Facts.defaultApplyProbability : Rat) = 1 := by
   decide +kernel
 
+
+/-- the constants this property depends on were re-read from the working tree on this run (none of
+    them fell back to its pinned value because its declaration could not be located) -/
+theorem facts_fresh : (Facts.staleFacts.all fun n => !["defaultApplyProbability"].contains n) = true := by decide
+
 end Rdm.Props.C08
